@@ -12,7 +12,7 @@ pub fn schema() -> SchemaDoc {
             TypeDef::Input { name: "Point".into(), fields: vec![f("x", GType::nn(n("Int"))), f("y", n("Float")), f("label", n("String"))], one_of: false },
             TypeDef::Input { name: "Filter".into(), fields: vec![f("nameLike", n("String")), f("type", n("Color")), f("in", GType::list(GType::nn(n("ID")))), f("snake_case", GType::nn(n("Boolean"))), f("at", n("Date")), f("corner", n("Point")), f("corners", GType::list(n("Point")))], one_of: false },
             TypeDef::Input { name: "Tree".into(), fields: vec![f("value", GType::nn(n("Int"))), f("left", n("Tree")), f("children", GType::list(GType::nn(n("Tree")))), f("pick", n("Choice"))], one_of: false },
-            TypeDef::Input { name: "Choice".into(), fields: vec![f("byId", n("ID")), f("byPoint", n("Point")), f("byColor", n("Color")), f("many", GType::list(GType::nn(n("Int")))), f("self", n("Tree"))], one_of: true },
+            TypeDef::Input { name: "Choice".into(), fields: vec![f("byId", n("ID")), f("byPoint", n("Point")), f("byColor", n("Color")), f("many", GType::list(GType::nn(n("Int")))), f("self", n("Tree")), f("snake_member", n("Int")), f("URL", n("String")), f("Capital", n("Boolean"))], one_of: true },
             TypeDef::Object { name: "Query".into(), implements: vec![], fields: vec![FieldDef::new("ok", n("Boolean"))] },
         ],
         schema_block: None,
